@@ -10,9 +10,11 @@ import (
 	"net/url"
 	"sort"
 
+	envoy_auth "github.com/envoyproxy/go-control-plane/envoy/service/auth/v3"
 	"github.com/rs/zerolog"
 
 	"github.com/dadrus/heimdall/internal/config"
+	"github.com/dadrus/heimdall/internal/handler/envoyextauth/grpcv3"
 	"github.com/dadrus/heimdall/internal/handler/requestcontext"
 	"github.com/dadrus/heimdall/internal/heimdall"
 	"github.com/dadrus/heimdall/internal/rules"
@@ -28,6 +30,17 @@ import (
 
 // Family "repo": rule-set histories against the real rule factory, rule-set processor and repository;
 // lookups go through the real request context (URL extraction), FindRule and ruleImpl.Execute.
+//
+// Every lookup is made twice, through the two constructors of a request context the code base has: the one of the
+// HTTP based services (requestcontext.New on a request parsed as net/http's server parses the request line) and the
+// one of the Envoy ext_authz service (grpcv3.NewRequestContext on a CheckRequest whose `path` is the request target
+// as received, which is what Envoy delivers). The answer of the second one is reported under "envoy". (Cases of this
+// family that are built by other families for their own purposes, e.g. the sequential replays of C07, do not ask for
+// it: it is made for cases carrying `"envoy": true`, which every generator of tools/gen_repo.py sets.)
+//
+// For a rule with a backend (`forward_to`) the URL the proxy would send the request to is reported under "up":
+// scheme, host, the path as written into the request line (EscapedPath) and the raw query of what
+// Backend.CreateURL / URLRewriter.Rewrite produce from the request URL after ruleImpl.Execute.
 
 func init() { families["repo"] = runRepo }
 
@@ -205,6 +218,80 @@ func newHTTPRequest(method, rawTarget, host string, scheme ...string) (*http.Req
 	return req.WithContext(context.Background()), nil
 }
 
+// serveLookup: FindRule + ruleImpl.Execute on the given request context, as the rule executor does
+func serveLookup(repo rule.Repository, ctx heimdall.Context, version func(heimdall.Context) string) map[string]any {
+	res := map[string]any{}
+
+	rul, err := repo.FindRule(ctx)
+	if err != nil {
+		res["rule"] = nil
+		res["err"] = errKind(err)
+
+		return res
+	}
+
+	res["rule"] = rul.SrcID() + "/" + rul.ID()
+
+	var be rule.Backend
+
+	be, err = rul.Execute(ctx)
+	res["exec"] = errKind(err)
+
+	if err == nil {
+		res["caps"] = sortedPairs(ctx.Request().URL.Captures)
+		if ver := version(ctx); ver != "" {
+			res["ver"] = ver
+		}
+
+		if be != nil {
+			res["up"] = map[string]any{
+				"scheme": outStr(be.URL().Scheme), "host": outStr(be.URL().Host),
+				"path": outStr(be.URL().EscapedPath()), "query": outStr(be.URL().RawQuery),
+			}
+		}
+	}
+
+	return res
+}
+
+// envoyLookup: the same lookup through the request context of the Envoy ext_authz service. Envoy delivers the request
+// target "as it appears in the first line of the HTTP request" in `path`; scheme, host and method are attributes.
+func envoyLookup(repo rule.Repository, op map[string]any) map[string]any {
+	scheme := getStr(op, "scheme")
+	if scheme == "" {
+		scheme = "http"
+	}
+
+	ctx := grpcv3.NewRequestContext(context.Background(), &envoy_auth.CheckRequest{
+		Attributes: &envoy_auth.AttributeContext{
+			Request: &envoy_auth.AttributeContext_Request{
+				Http: &envoy_auth.AttributeContext_HttpRequest{
+					Method: getStr(op, "method"),
+					Scheme: scheme,
+					Host:   getStr(op, "host"),
+					Path:   getStr(op, "target"),
+				},
+			},
+		},
+	})
+
+	return serveLookup(repo, ctx, func(heimdall.Context) string {
+		// the headers for the upstream are only visible in the response handed to Envoy
+		resp, err := ctx.Finalize()
+		if err != nil {
+			return ""
+		}
+
+		for _, h := range resp.GetOkResponse().GetHeaders() {
+			if h.GetHeader().GetKey() == "X-Verif-Ver" {
+				return h.GetHeader().GetValue()
+			}
+		}
+
+		return ""
+	})
+}
+
 func runRepo(c map[string]any) (any, error) {
 	conf := &config.Configuration{}
 	if getBool(c, "dr") {
@@ -222,6 +309,7 @@ func runRepo(c map[string]any) (any, error) {
 	repo := rules.VerifNewRepository(factory)
 	proc := rules.NewRuleSetProcessor(repo, factory)
 	out := []any{}
+	bothContexts := getBool(c, "envoy")
 
 	for _, o := range getArr(c, "ops") {
 		op := obj(o)
@@ -235,39 +323,21 @@ func runRepo(c map[string]any) (any, error) {
 		case "find":
 			req, err := newHTTPRequest(getStr(op, "method"), getStr(op, "target"), getStr(op, "host"), getStr(op, "scheme"))
 			if err != nil {
-				out = append(out, map[string]any{"badrequest": true})
+				res := map[string]any{"badrequest": true}
+				if bothContexts {
+					res["envoy"] = envoyLookup(repo, op)
+				}
 
-				continue
-			}
-
-			ctx := requestcontext.New(req)
-			res := map[string]any{}
-
-			rul, err := repo.FindRule(ctx)
-			if err != nil {
-				res["rule"] = nil
-				res["err"] = errKind(err)
 				out = append(out, res)
 
 				continue
 			}
 
-			res["rule"] = rul.SrcID() + "/" + rul.ID()
-
-			var be rule.Backend
-
-			be, err = rul.Execute(ctx)
-			res["exec"] = errKind(err)
-
-			if err == nil {
-				res["caps"] = sortedPairs(ctx.Request().URL.Captures)
-				if ver := ctx.UpstreamHeaders().Get("X-Verif-Ver"); ver != "" {
-					res["ver"] = ver
-				}
-
-				if be != nil {
-					res["upstream"] = be.URL().String()
-				}
+			res := serveLookup(repo, requestcontext.New(req), func(ctx heimdall.Context) string {
+				return ctx.(*requestcontext.RequestContext).UpstreamHeaders().Get("X-Verif-Ver") //nolint:forcetypeassert
+			})
+			if bothContexts {
+				res["envoy"] = envoyLookup(repo, op)
 			}
 
 			out = append(out, res)
